@@ -27,6 +27,10 @@ const verifC41Space = 1 << 24
 
 var verifC41Suffix = regexp.MustCompile(`^[0-9a-f]{6}$`)
 
+// verifC41TickerRule is the documented ticker rule of esdt.go (minLengthForTickerName = 3, maxLengthForTickerName = 10,
+// isTickerValid: every byte 'A'..'Z' or '0'..'9'), written down independently: the TICKER part of an issued identifier.
+var verifC41TickerRule = regexp.MustCompile(`^[A-Z0-9]{3,10}$`)
+
 // verifC41Hasher is the harness hasher double: a 32-byte digest whose first three bytes are chosen by the
 // generator (quantifying over hash outputs = quantifying over (caller, random seed) inputs of a real hasher).
 type verifC41Hasher struct {
@@ -113,7 +117,11 @@ type verifC41Issue struct {
 }
 
 func (i verifC41Issue) String() string {
-	return fmt.Sprintf("%s(%s,caller%d,hash=%06x)", [...]string{"issue", "issueSemiFungible", "issueNonFungible"}[i.kind], i.ticker, i.caller, i.rnd)
+	tk := i.ticker
+	if !verifC41TickerRule.MatchString(tk) {
+		tk = fmt.Sprintf("%q", tk)
+	}
+	return fmt.Sprintf("%s(%s,caller%d,hash=%06x)", [...]string{"issue", "issueSemiFungible", "issueNonFungible"}[i.kind], tk, i.caller, i.rnd)
 }
 
 var verifC41Callers = [][]byte{
@@ -159,10 +167,7 @@ func verifC41FailureAllowed(issued map[string]bool, ticker string, r uint32) boo
 func (f *verifC41Fixture) verifC41Execute(is verifC41Issue) (vmcommon.ReturnCode, string, []string, error) {
 	f.hasher.next = is.rnd
 	caller := verifC41Callers[is.caller]
-	name := verifC41Arg([]byte("TokenName" + is.ticker))
-	if len(name) > 20 {
-		name = name[:20]
-	}
+	name := verifC41Arg([]byte(fmt.Sprintf("TokenName%d", is.kind)))
 	ticker := verifC41Arg([]byte(is.ticker))
 	var in *vmcommon.ContractCallInput
 	switch is.kind {
@@ -209,8 +214,8 @@ func (f *verifC41Fixture) verifC41Execute(is verifC41Issue) (vmcommon.ReturnCode
 
 func verifC41CheckWellFormed(c *kit.Case, where string, ticker string, id string, ctx fmt.Stringer) {
 	prefix := ticker + "-"
-	if !strings.HasPrefix(id, prefix) || !verifC41Suffix.MatchString(id[len(prefix):]) {
-		c.Violation("C41:"+where+":malformed-identifier", "identifier %q is not %s-<six lowercase hex digits> (%s)", id, ticker, ctx)
+	if !verifC41TickerRule.MatchString(ticker) || !strings.HasPrefix(id, prefix) || !verifC41Suffix.MatchString(id[len(prefix):]) {
+		c.Violation("C41:"+where+":malformed-identifier", "identifier %q (ticker argument %q) is not TICKER-xxxxxx with TICKER = the ticker argument of 3-10 characters [A-Z0-9] and six lowercase hex digits (%s)", id, ticker, ctx)
 	}
 }
 
@@ -243,12 +248,61 @@ func verifC41Ticker(rt *rapid.T, label string) string {
 	return string(b)
 }
 
+// verifC41OddTicker derives a ticker argument that breaks the documented rule from a valid one. A ticker is an
+// arbitrary byte string chosen by the sender of the transaction (hex-encoded argument), so every byte value and
+// every length can reach the contract.
+func verifC41OddTicker(rt *rapid.T, base string) string {
+	b := []byte(base)
+	oddByte := func(label string) byte {
+		switch rapid.IntRange(0, 3).Draw(rt, label+"Class") {
+		case 0:
+			return byte(rapid.IntRange(0x80, 0xff).Draw(rt, label+"High"))
+		case 1:
+			return byte(rapid.IntRange('a', 'z').Draw(rt, label+"Lower"))
+		case 2:
+			return rapid.SampledFrom([]byte{0x00, ' ', '-', '/', ':', '@', '[', '`', '{', 0x7f, '_', '.', '$'}).Draw(rt, label+"Punct")
+		default:
+			for {
+				x := rapid.Byte().Draw(rt, label+"Any")
+				if !(x >= 'A' && x <= 'Z') && !(x >= '0' && x <= '9') {
+					return x
+				}
+			}
+		}
+	}
+	switch rapid.IntRange(0, 7).Draw(rt, "oddKind") {
+	case 0, 1, 2: // one byte outside the alphabet
+		b[rapid.IntRange(0, len(b)-1).Draw(rt, "oddPos")] = oddByte("odd")
+	case 3: // two bytes outside the alphabet
+		b[rapid.IntRange(0, len(b)-1).Draw(rt, "oddPos")] = oddByte("odd")
+		b[rapid.IntRange(0, len(b)-1).Draw(rt, "oddPos2")] = oddByte("odd2")
+	case 4: // too short: 0, 1 or 2 characters of the alphabet
+		b = b[:rapid.IntRange(0, 2).Draw(rt, "shortLen")]
+	case 5: // too long: 11 or 12 characters of the alphabet
+		target := 11 + rapid.IntRange(0, 1).Draw(rt, "longLen")
+		for len(b) < target {
+			b = append(b, 'A')
+		}
+	case 6: // nothing from the alphabet
+		for i := range b {
+			b[i] = oddByte("all")
+		}
+	default: // right alphabet in lower case
+		b = []byte(strings.ToLower(string(b)))
+		if string(b) == base {
+			b[0] = 'x'
+		}
+	}
+	return string(b)
+}
+
 func TestVerifC41_Issue(t *testing.T) {
 	kit.Run(t, "C41", kit.Budget{Quick: 2500, Thorough: 20000},
 		"sequences of 1-70 issue/issueSemiFungible/issueNonFungible transactions over 1-3 tickers (3-10 chars [A-Z0-9]) and 3 callers through the real ESDT contract and vmContext; "+
 			"the first three bytes of the hasher output are drawn per transaction (000000.., ..ffffff, repeats of earlier values, uniform); "+
-			"oracle: returned identifier == the single storage key written, matches TICKER-[0-9a-f]{6}, not in the harness' set of identifiers issued before; failure only if all 50 candidates are occupied/unavailable; "+
-			"non-trivial = a transaction whose first candidate was already taken or whose hash value is within 50 of ffffff; distinct by transaction sequence",
+			"one transaction in eight carries a ticker argument that breaks the documented rule (one or two bytes outside [A-Z0-9]: high bytes, lower case, punctuation, NUL; length 0-2 or 11-12; all bytes odd; lower-cased); "+
+			"oracle: a transaction either fails or the returned identifier == the single storage key written, is TICKER-[0-9a-f]{6} with TICKER == the ticker argument matching ^[A-Z0-9]{3,10}$, and is not in the harness' set of identifiers issued before; with a valid ticker failure only if all 50 candidates are occupied/unavailable; "+
+			"non-trivial = a transaction whose first candidate was already taken, whose hash value is within 50 of ffffff, or whose ticker breaks the rule; distinct by transaction sequence",
 		func(rt *rapid.T, c *kit.Case) {
 			f, err := verifC41NewFixture()
 			if err != nil {
@@ -276,6 +330,14 @@ func TestVerifC41_Issue(t *testing.T) {
 				}
 				is.rnd = verifC41DrawRnd(rt, earlier, "rnd")
 				earlier = append(earlier, is.rnd)
+				if rapid.IntRange(0, 7).Draw(rt, "oddTicker") == 0 {
+					is.ticker = verifC41OddTicker(rt, is.ticker)
+				}
+				validTicker := verifC41TickerRule.MatchString(is.ticker)
+				if !validTicker {
+					c.Class("ticker outside the documented rule")
+					nonTrivial = true
+				}
 				trace = append(trace, is.String())
 				firstTaken := issued[verifC41Id(is.ticker, is.rnd)]
 				nearTop := is.rnd >= verifC41Space-verifC41Retries
@@ -300,6 +362,10 @@ func TestVerifC41_Issue(t *testing.T) {
 				c.NoPanic("C41:issue:panic", func() { rc, id, written, errRun = f.verifC41Execute(is) })
 				if errRun != nil {
 					rt.Fatalf("fixture: %v", errRun)
+				}
+				if rc != vmcommon.Ok && !validTicker {
+					c.Class("ticker outside the documented rule: rejected")
+					continue
 				}
 				if rc != vmcommon.Ok {
 					c.Class("issue-failed")
@@ -448,4 +514,66 @@ func TestVerifC41_Regress(t *testing.T) {
 			kit.FailPlain(t, "C41", "C41:issue:malformed-identifier", "issue #%d of ticker TCK with hash value ffffff returned %q", i+1, id)
 		}
 	}
+}
+
+// TestVerifC41_TickerBytes: exhaustive sweep of the ticker alphabet and length rule through the three issue
+// endpoints: ticker TKN7A with every byte value at its first, middle and last position, and alphabet-only tickers of
+// length 0..12. A transaction either fails or returns a well-formed, new identifier; a ticker that satisfies the
+// documented rule must be issued (its first candidate is free).
+func TestVerifC41_TickerBytes(t *testing.T) {
+	p := kit.NewPlain(t, "C41", "exhaustive: ticker TKN7A with each of the 256 byte values at position 0, 2 and 4, and alphabet-only tickers of length 0..12, through issue / issueSemiFungible / issueNonFungible (fresh hash value each time); "+
+		"a transaction fails or returns TICKER-[0-9a-f]{6} with TICKER == the argument matching ^[A-Z0-9]{3,10}$, never issued before; a ticker satisfying the rule must be issued; non-trivial = ticker outside the rule")
+	defer p.Done()
+	f, err := verifC41NewFixture()
+	if err != nil {
+		t.Fatalf("fixture: %v", err)
+	}
+	issued := map[string]bool{}
+	rnd := uint32(0x000100)
+	run := func(ticker string, kind int) {
+		rnd += 3
+		is := verifC41Issue{kind: kind, ticker: ticker, caller: kind, rnd: rnd}
+		rc, id, written, errRun := f.verifC41Execute(is)
+		if errRun != nil {
+			t.Fatalf("fixture: %v", errRun)
+		}
+		p.Eval(1)
+		valid := verifC41TickerRule.MatchString(ticker)
+		if !valid {
+			p.NonTrivial(fmt.Sprintf("%d %x", kind, ticker))
+		}
+		if rc != vmcommon.Ok {
+			p.Class("rejected", 1)
+			if valid {
+				p.Violation("C41:issue:spurious-failure", "%s failed (%s: %s) although the ticker satisfies the rule and its first candidate is free", is, rc, id)
+			}
+			return
+		}
+		p.Class("issued", 1)
+		prefix := ticker + "-"
+		if !valid || !strings.HasPrefix(id, prefix) || !verifC41Suffix.MatchString(id[len(prefix):]) {
+			p.Violation("C41:issue:malformed-identifier", "%s returned identifier %q (ticker bytes %x): not TICKER-xxxxxx with TICKER of 3-10 characters [A-Z0-9]", is, id, ticker)
+			return
+		}
+		if len(written) != 1 || written[0] != id {
+			p.Violation("C41:issue:returned-vs-stored", "%s returned %q but wrote the storage keys %q", is, id, written)
+		}
+		if issued[id] {
+			p.Violation("C41:issue:duplicate-identifier", "%s returned %q which was issued before", is, id)
+		}
+		issued[id] = true
+	}
+	for kind := 0; kind < 3; kind++ {
+		for _, pos := range []int{0, 2, 4} {
+			for v := 0; v < 256; v++ {
+				b := []byte("TKN7A")
+				b[pos] = byte(v)
+				run(string(b), kind)
+			}
+		}
+		for n := 0; n <= 12; n++ {
+			run(strings.Repeat("Z9", 6)[:n], kind)
+		}
+	}
+	p.Exhaustive()
 }
